@@ -390,6 +390,8 @@ def w_rec(rep, ex: Explorer, be: Backend):
         loops = [ev for ev, Q in iter_events(p.events) if ev.kind == "loop" and not Q and ev.data.get("exits")]
         tie = [ev for ev, Q in iter_events(p.events) if ev.kind == "loop" and not Q and ev.fam[0] == "members" and isinstance(ev.fam[1], tuple) and ev.fam[1][:2] == ("setop", "&")]
         if E is True:
+            if X not in (None, "complete"):
+                continue  # infeasible: the tie loop cannot be left at a member of a family just found empty
             rep.check(out is True, "W.decision", site, "no ties", "no tie fails ⇒ True", extracted=str(out), required="True", function=site)
             continue
         if E is False and not tie and K0 is not None and _k_is_zero(K0) is True:
